@@ -13,3 +13,12 @@ func SelectLoop() {}
 // Mutex and RWMutex are what the instrumented scratch copy uses in place of the sync types.
 type Mutex = sync.Mutex
 type RWMutex = sync.RWMutex
+
+// MapKeys returns the keys of m (see auto_on.go; nothing in the repository calls it).
+func MapKeys[K comparable, V any](m map[K]V, site string) []K {
+	keys := make([]K, 0, len(m))
+	for k := range m {
+		keys = append(keys, k)
+	}
+	return keys
+}
